@@ -376,6 +376,9 @@ pub fn err_contexts() -> Vec<(&'static str, fn(I) -> I)> {
         ("par-after-waiting-join", |f| par(par(call("B", "slow", vec![], sc("q")), par(call("A", "ga", vec![var("q")], Out::None), call("B", "gb", vec![var("q")], Out::None))), f)),
         // the failing instruction comes after a fire-and-forget call to another peer (`co on B`)
         ("after-fire-and-forget", |f| seq(par(call("B", "other", vec![], Out::None), I::Null), f)),
+        // a value was appended to a global stream earlier in the very run that ends with the failure
+        ("after-stream-ap", |f| seq(I::Ap { src: Arg::Str("v".into()), dst: "$g".into() }, f)),
+        ("after-stream-call", |f| seq(call("A", "w", vec![], st("$g")), f)),
         ("par-before-waiting-join", |f| par(f, par(call("B", "slow", vec![], sc("q")), par(call("A", "ga", vec![var("q")], Out::None), call("B", "gb", vec![var("q")], Out::None))))),
     ]
 }
